@@ -93,6 +93,14 @@ func (dist *LaplaceDistribution) Pdf(r Scalar, x ConstScalar) error {
 
 func (dist *LaplaceDistribution) LogCdf(r Scalar, x Vector) error {
 
+  if err := dist.Cdf(r, x); err != nil {
+    return err
+  }
+  r.Log(r)
+  return nil
+}
+
+func (dist *LaplaceDistribution) Cdf(r Scalar, x Vector) error {
   r.Sub(x.At(0), dist.Mu)
   r.Abs(r)
   r.Div(r, dist.Sigma)
@@ -107,13 +115,6 @@ func (dist *LaplaceDistribution) LogCdf(r Scalar, x Vector) error {
   return nil
 }
 
-func (dist *LaplaceDistribution) Cdf(r Scalar, x Vector) error {
-  if err := dist.LogCdf(r, x); err != nil {
-    return err
-  }
-  r.Exp(r)
-  return nil
-}
 
 /* -------------------------------------------------------------------------- */
 
